@@ -156,3 +156,27 @@ pub async fn dead_worker_window(router: &str) -> String {
     }
     out.join(";")
 }
+
+/// access to the private deque / flags of the two queuer routers (native replays)
+pub trait DequeAccess {
+    fn set_deque(&mut self, deque: &[usize], n: usize);
+    fn get_deque(&self) -> (Vec<usize>, Vec<bool>);
+}
+impl DequeAccess for QueuerRouting<u64, u64> {
+    fn set_deque(&mut self, deque: &[usize], n: usize) {
+        self.available_workers = VecDeque::from(deque.to_vec());
+        self.worker_in_queue = (0..n).map(|w| deque.contains(&w)).collect();
+    }
+    fn get_deque(&self) -> (Vec<usize>, Vec<bool>) {
+        (self.available_workers.iter().copied().collect(), self.worker_in_queue.clone())
+    }
+}
+impl DequeAccess for StickyQueuerRouting<u64, u64> {
+    fn set_deque(&mut self, deque: &[usize], n: usize) {
+        self.available_workers = VecDeque::from(deque.to_vec());
+        self.worker_in_queue = (0..n).map(|w| deque.contains(&w)).collect();
+    }
+    fn get_deque(&self) -> (Vec<usize>, Vec<bool>) {
+        (self.available_workers.iter().copied().collect(), self.worker_in_queue.clone())
+    }
+}
